@@ -144,7 +144,7 @@ def run_obligation(ob, tier, seed):
         res = ex.res
     out.update(paths_with_checks=res.paths_with_checks, replayed=len(out["violations"]), paths=res.paths, aborted=res.aborted_paths, decisions=res.decisions, queries=res.queries,
                solver_s=round(res.solver_s, 3), checks=res.checks, wall_s=round(res.wall_s, 3),
-               exhausted=res.exhausted, inconclusive=sorted(set(res.inconclusive))[:10],
+               exhausted=res.exhausted, inconclusive=sorted(set(res.inconclusive))[:10], xcheck=res.xcheck,
                reached=sorted(res.reached))
     if ob.expect_labels:
         missing = [l for l in ob.expect_labels if l not in res.reached]
